@@ -37,7 +37,10 @@ def _gen(rng, i=None):
     elif k < 0.67:
         name, prog = 'tmpl:pending_return', gen.tmpl_pending_return(rng)
     elif k < 0.8:
-        name, prog = 'tmpl:label_table', gen.tmpl_label_table(rng)
+        if i is not None and (i // len(QUOTA)) % 2:
+            name, prog = 'tmpl:two_labels', gen.tmpl_two_labels(rng)
+        else:
+            name, prog = 'tmpl:label_table', gen.tmpl_label_table(rng)
     elif k < 0.86:
         name, prog = 'tmpl:self_return', gen.tmpl_self_return(rng)
     elif k > 0.985:
